@@ -264,6 +264,8 @@ def slice_C01(ctx):
         pat = gen.pp(ast)
         for inp in inps:
             tuples.append(("xpath", rng.choice(["", "i", "m"]), pat, inp, "", "fixedrep"))
+    for d, fl, pat, inp, _ in bigfollow_stream(ctx, ctx.n(3000, 30000)):
+        tuples.append((d, fl, pat, inp, "", "bigfollow"))
     cases = mk_cases(tuples, "m")
     code, model, dis = run_slice(cases)
     spec = spec_match(cases)
@@ -294,6 +296,8 @@ def slice_C02(ctx):
                                               alphabets=["ab", "abc", "aab", "ab" + ASTRAL, "ab́"],
                                               per_pattern=5, shapes=0.25):
         tuples.append((d, fl, pat, inp, "", None))
+    for d, fl, pat, inp, _ in bigfollow_stream(ctx, ctx.n(3000, 30000)):
+        tuples.append((d, fl, pat, inp, "", "bigfollow"))
     # overlapping alternatives / greedy vs reluctant followed by optional terms
     hand = ["a|ab", "ab|a", "(?:a|ab)(?:c|bcd)", "a*?b?", "a+?b*", "(?:ab|a)(?:b|bc)?", "a{1,2}?a", "(?:a|b)*?b",
             "(?:aa|a)+", "(?:a|aa)+?b", ASTRAL + "|a", "[ab" + ASTRAL + "]+?" + ASTRAL, "a.b", "(?:.a|a.)"]
@@ -622,6 +626,19 @@ def precond_stream(ctx, count, repl="-"):
     return out
 
 
+def bigfollow_stream(ctx, count, repl=""):
+    """gen.bigfollow shapes with their own inputs; own generator state (see precond_stream)"""
+    rng = random.Random(ctx.seed * 104729 + 5)
+    out = []
+    while len(out) < count:
+        ast, inputs = gen.bigfollow(rng) if rng.random() < 0.6 else gen.groupfollow(rng, rng.choice(["xyz", "abc", "ab"]))
+        pat = gen.pp(ast, "xpath", rng)
+        fl = rng.choice(["", "", "i", "s", "m"])
+        for inp in inputs:
+            out.append(("xpath", fl, pat, inp, repl))
+    return out
+
+
 def slice_C05(ctx):
     cases = mk_cases(arbitrary_stream(ctx) + precond_stream(ctx, ctx.n(2000, 20000)), "mrta")
     code, model, dis = run_slice(cases)
@@ -775,6 +792,7 @@ def slice_C08(ctx):
                                               alphabets=["ab", "abc", "ab\n", "aAb", "ab1"]):
         tuples.append((d, fl, pat, inp, "[$1]"))
     tuples += precond_stream(ctx, ctx.n(3000, 30000), "[$1]")
+    tuples += bigfollow_stream(ctx, ctx.n(3000, 30000), "[$1]")
     # shapes that trigger each shortcut
     # (pattern text, a text it matches)
     heads = [("ab", "ab"), ("a", "a"), ("[ab]", "b"), ("\\d", "1"), ("^", ""), ("^a", "a"), (".", "b"), ("(a)", "a"),
@@ -998,6 +1016,7 @@ def swap_ast(node, m, rng, p=0.6):
 
 def slice_C11(ctx):
     rng = ctx.rng
+    shaped_rng = random.Random(ctx.seed * 15485863 + 11)
     cases, groups_ = [], []
     cid = 0
     for _ in range(ctx.n(2500, 25000)):
@@ -1007,7 +1026,12 @@ def slice_C11(ctx):
         al = lower + upper[:2] + rng.choice(CASELESS) + rng.choice(CASELESS)
         g = gen.Gen(rng, alphabet=al, feats={"cls", "grp", "nc", "reluctant", "alt", "quant", "bref", "dot"})
         # ranges only inside one case of one script, so that the range is within the clean alphabet
-        ast, _ = g.pattern(rng.randint(1, 8))
+        if shaped_rng.random() < 0.3:
+            # X-repeat, optional middle, X again over the cased letters: after the case swap the
+            # repeated letter and the one that follows can be the two case forms of one letter
+            ast = gen.shaped(shaped_rng, lower[:2] + upper[:1])
+        else:
+            ast, _ = g.pattern(rng.randint(1, 8))
         pat = gen.pp(ast)              # both spellings printed the same way: only the letters differ
         ast2 = swap_ast(ast, m, rng)
         pat2 = gen.pp(ast2)
@@ -1530,7 +1554,10 @@ def slice_C18(ctx):
         pool.append(("xpath", rng.choice(["", "", "i"]), shape % (w1, w2, tail), "abc" + tail + tail))
     pool += [("xpath", "", "^(?:yy|y|(?:ab|c)*d){3}$", "ydabc"), ("xpath", "", "(?:a|bc)*x", "abcxx1"),
              ("xpath", "", "(a|b)*\\1x", "abxx"), ("xpath", "", "(a)|(b)\\1?c", "abc"),
-             ("xpath", "", "\\p{IsGreek}+|\\p{IsBasicLatin}", "aβγ1"), ("xsd", "", "[a-c]+", "abcx")]
+             ("xpath", "", "\\p{IsGreek}+|\\p{IsBasicLatin}", "aβγ1"), ("xsd", "", "[a-c]+", "abcx"),
+             # the same flag string under both dialects, on syntax where the dialects differ: nothing
+             # compiled earlier in the process may decide how these are read
+             ("xsd", "", "a$", "a$"), ("xsd", "", "^a", "^a"), ("xpath", "", "^a$", "a^$"), ("xpath", "", "a$|^b", "ab$")]
     ops, expect_cases = [], []
     handles = 0
     live = []
@@ -1817,9 +1844,15 @@ def slice_C20(ctx):
     cases, pairs = [], []
     cid = 0
     laws = collections.Counter()
-    target = ctx.n(4000, 40000)
-    while len(pairs) < target:
-        al = rng.choice(["ab", "abc", "ab\n"])
+    # second stream (own generator state): flag i over alphabets with case-less characters and both
+    # case forms of one letter, where "x = [x]" and the optimiser's first-character sets interact
+    rng_i = random.Random(ctx.seed * 32452843 + 20)
+    streams = [(rng, ["ab", "abc", "ab\n"], ["", "i", "m", "s"], ctx.n(4000, 40000)),
+               (rng_i, ["a1", "aA", "01", "a-", "aA0"], ["i", "i", "i", ""], ctx.n(1200, 12000))]
+    for rng, alphabets_, flags_, target in streams:
+      npairs0 = len(pairs)
+      while len(pairs) - npairs0 < target:
+        al = rng.choice(alphabets_)
         g = gen.Gen(rng, alphabet=al, feats={"cls", "grp", "nc", "alt", "quant", "dot", "anchor", "reluctant"}, max_rep=2)
         special_inputs = None
         k_ = rng.random()
@@ -1840,7 +1873,7 @@ def slice_C20(ctx):
         except Exception:
             continue
         # the group-removal law changes group numbers: compare spans only, not $N
-        fl = rng.choice(["", "i", "m", "s"])
+        fl = rng.choice(flags_)
         for inp in (special_inputs or gen.inputs_for(rng, al, 4)):
             a = Case(cid, "xpath", fl, pat, inp, "<$0>", "mra", tag=law)
             b = Case(cid + 1, "xpath", fl, pat2, inp, "<$0>", "mra", tag=law)
@@ -1848,6 +1881,7 @@ def slice_C20(ctx):
             pairs.append((str(cid), str(cid + 1), law, order_ok))
             cid += 2
         laws[law] += 1
+    rng = ctx.rng
     code, model, dis = run_slice(cases)
     spec = spec_match([c for c in cases])
     byid = {c.cid: c for c in cases}
